@@ -114,7 +114,11 @@ class Report:
 
     def floor(self, what: str, count: int, minimum: int) -> None:
         self.counters[what] = count
-        if count < minimum:
+        # `minimum` is the count confirmed by hand on the tree the rule was written against. A refactor
+        # that folds duplicated sites into a helper lowers a count without emptying the rule, so the
+        # run is given up only when well under it (two thirds); small floors are exact.
+        threshold = minimum if minimum <= 3 else max(3, (2 * minimum + 2) // 3)
+        if count < threshold:
             # not a verdict: if other rules found a violation it is reported (exit 1), otherwise the
             # run ends as an analysis error (exit 2) - never as a pass
             self.defer(
